@@ -300,6 +300,9 @@ func netProperty(t *testing.T, prop string, want map[string]bool) {
 		})
 		recordRun(res, c)
 		NodeLog.Reset()
+		if v == nil && res.fatal != "" {
+			v = &violation{"node-stops-on-honest-input", "stage=" + res.fatalStage, "node A stopped itself (logger.Fatal) or panicked while processing honest input: " + res.fatal}
+		}
 		if v != nil {
 			if simkit.Violation(rt, tr, prop, v.class, v.witness, fmt.Sprintf("%s\nprologue=%d tape=%v net=%v x%d", v.detail, c.Prologue, renderTape(c.Tape), renderNet(nops), perOp)) {
 				panic(simkit.KnownReached{})
